@@ -75,6 +75,13 @@ CLAIMED = {
         'Necessary conditions of completeness, non-destructiveness and uniqueness; concrete id strings are not generated.',
    note='Trusted: clang AST/CFG/call graph; id kinds are recognised by getter/setter name and static receiver type. Two stale-index defects were replayed and repaired.',
    ref='DESIGN.md section 4, C13'),
+ 'C14': dict(
+   technique='static analysis: path-sensitive issue-level dataflow keyed on the 1.x mode flag, dominance of the strict-mode gate, value-consulted and fresh-object-per-iteration rules over parser.cpp',
+   text='In strict mode a non-2.0 root is refused with an error before any child is loaded; on every path from the creation of an issue to addIssue on which the parser is known to be in 1.x mode, sites shared with the 2.0 path carry Level::MESSAGE; '
+        'legacy names are recognised in the 1.x branches; the 1.x interface attributes are read by value; every entity created while looping over XML children is created inside the iteration that adds it; 1.x MathML goes through the namespace rewrite. '
+        'Necessary conditions; equality with the equivalent 2.0 model is not executed.',
+   note='Trusted: clang AST/CFG. The "none" interface defect was replayed and repaired.',
+   ref='DESIGN.md section 4, C14'),
  'C16': dict(
    technique='static analysis: recogniser non-vacuity, grammar terminals read from the AST, exception-channel screening of std::sto*, use-site branch rules',
    text='Decides on all paths of the recognisers/conversions: no acceptance through std::all_of over an empty string; sign/digit/point/e-marker sets and count bounds equal the CellML grammar; '
